@@ -416,7 +416,35 @@ def write_replay(spec, cfg, res, v, outdir):
     path = os.path.join(outdir, "%s_%s.json" % (v.clause, dg))
     with open(path, "w") as f:
         json.dump(body, f, indent=1, sort_keys=True, default=harness._js)
+    # a plain unit test that replays the recorded answer sequence without the explorer
+    test = path[:-5] + "_test.py"
+    with open(test, "w") as f:
+        f.write(_TEST_TEMPLATE % {"root": os.path.dirname(os.path.dirname(os.path.abspath(__file__))), "pid": v.prop,
+                                  "path": path, "clause": v.clause})
     return path
+
+
+_TEST_TEMPLATE = '''"""Replays one recorded execution (fixed answer list, divergence = error) on the real ciw engine.
+Run: PYTHONHASHSEED=0 /venv/bin/python %(path)s_test  (or: ./check %(pid)s --replay %(path)s)"""
+import sys
+import unittest
+
+sys.path.insert(0, %(root)r)
+
+
+class Replay(unittest.TestCase):
+    def test_property_%(pid)s_%(clause)s(self):
+        import importlib
+        from ciwmc import explore
+        spec = importlib.import_module("ciwmc.props.%(pid)s".lower()).SPEC
+        body, res = explore.replay_file(spec, %(path)r)
+        clauses = [v.clause for v in res.violations]
+        self.assertNotIn(%(clause)r, clauses, "property %(pid)s violated: %%r" %% [v.as_dict() for v in res.violations])
+
+
+if __name__ == "__main__":
+    unittest.main()
+'''
 
 
 def replay_file(spec, path):
